@@ -202,3 +202,29 @@ pub fn serialize_history(ops: &[Op], out: &mut Out, witness: &dyn Fn() -> Value)
     }
     Serialized { packets, all_ok }
 }
+
+/// The size a receiver that honours decoded chunk-size changes takes from a decoded
+/// announcement (None: not a usable announcement).
+pub fn announced_size(m: &Msg) -> Option<usize> {
+    if m.type_id == 1 && m.data.len() == 4 {
+        let v = u32::from_be_bytes([m.data[0], m.data[1], m.data[2], m.data[3]]) & 0x7FFF_FFFF;
+        if v >= 1 {
+            return Some(v as usize);
+        }
+    }
+    None
+}
+
+/// The statements speak of the application's messages; the announcement a chunk-size change
+/// produces is the serializer's own message.  It must be a SetChunkSize message on message stream
+/// 0, but which size it announces (the requested one, or an equivalent or different one the
+/// serializer then really uses) is left to the serializer: the expected announcement takes the
+/// decoded body, and the receiver is told the decoded size.
+pub fn accept_announced_sizes(expected: &mut [Msg], got: &[Msg], is_announcement: &[bool], out: &mut Out) {
+    for i in 0..expected.len().min(got.len()) {
+        if is_announcement[i] && announced_size(&got[i]).is_some() && got[i].data != expected[i].data {
+            out.count("announced_chunk_size_differs_from_requested", 1);
+            expected[i].data = got[i].data.clone();
+        }
+    }
+}
